@@ -44,6 +44,19 @@ def run(chk: Check) -> None:
     ok = len(stores) == 1 and norm(stores[0].value) == 'key' and any(isinstance(l, ast.For) and norm(l.iter) == f'{t2.node.args.kwarg.arg}.items()' and norm(l.target) == '(key, awaitable)' or
                                                                     (isinstance(l, ast.For) and norm(l.iter) == f'{t2.node.args.kwarg.arg}.items()') for l in ast.walk(t2.node))
     chk.ob('DOM-barrier-wait', t2, ok, 'to_context registers every (key, awaitable) pair it is given', kind='registers-all')
+    # ... on every path through the loop body (no shortcut that copies something into the context itself: whether the item
+    # succeeded, failed or was killed is only known by going through the wait), and nothing else writes the context here
+    tcfg = cfg_of(t2)
+    its = [m for m in tcfg.nodes if m.kind == 'iter']
+    regs = [m for m in tcfg.nodes if m.kind == 'stmt' and any(m.ast is s_ for s_ in stores)]
+    ok = bool(its) and bool(regs)
+    for it in its:
+        body = [t for t, l in it.succ if l not in ('exc', 'uncaught', 'handler', 'false', 'exit', 'done')]
+        body = [t for t in body if it.id in tcfg.reachable([t], edge_ok=no_exc)]   # the successor that leads back to the loop head
+        ok &= bool(body) and all(tcfg.must_pass(b, [it], lambda x: x in regs, edge_ok=no_exc) for b in body)
+    direct = [n for n in ast.walk(t2.node) if isinstance(n, ast.Assign) and any(isinstance(t, ast.Subscript) and norm(t.value).endswith('.ctx') for t in n.targets)]
+    chk.ob('DOM-barrier-wait', t2, ok and not direct, 'every iteration registers the item for the barrier and to_context itself puts nothing into the context', node=direct[0] if direct else None,
+           kind='registers-on-every-path')
     from ..rules import conditional_values
 
     def process_to_future(f, store_key: str, item: str) -> bool:
@@ -93,6 +106,12 @@ def run(chk: Check) -> None:
     ctxw = [n for n in acfg.nodes if n.kind == 'stmt' and isinstance(n.ast, ast.Assign) and isinstance(n.ast.targets[0], ast.Subscript) and norm(n.ast.targets[0].value).endswith('.ctx')]
     ok = len(ctxw) == 1 and all(acfg.must_pass(acfg.entry, [w], lambda m: m in ctxw, edge_ok=no_exc) or acfg.must_pass(w, [acfg.exit], lambda m: m in ctxw, edge_ok=no_exc) for w in wake)
     chk.ob('DOM-barrier-guard', ad, ok, 'the result is stored in the context on every path that can wake the step', kind='context-before-or-with-wake')
+    # every completion is looked at: each normal path through the callback reads the awaitable's outcome (stores it, or forwards its failure)
+    aparam_ = ad.params[1] if len(ad.params) > 1 else 'awaitable'
+    reads = [n for n in acfg.nodes if any(last_name(c) in ('result', 'exception') and isinstance(c.func, ast.Attribute) and norm(c.func.value) == aparam_ for c in _calls(n))]
+    ok = bool(reads) and acfg.must_pass(acfg.entry, [acfg.exit], lambda m: m in reads, edge_ok=no_exc)
+    chk.ob('DOM-barrier-guard', ad, ok, 'no completion is ignored: every normal path through the done-callback reads the awaitable\'s outcome (a result skipped because "the wait is already decided" '
+           '-- it is also "decided" while a pause interruption sits in the future -- never reaches the context)', kind='outcome-always-read')
     fails = [n for n in acfg.nodes if any(last_name(c) == 'set_exception' and af.canon.key(c.func.value) == 'self._waiting_future' for c in _calls(n))]
     ok = False
     for h in [h for t in ast.walk(ad.node) if isinstance(t, ast.Try) for h in t.handlers]:
